@@ -1,0 +1,41 @@
+//! Verification seams (feature `verif`): a transport the simulator can install so that messages
+//! the real code would send to a remote node go to the simulated network instead.
+
+use std::future::Future;
+use std::pin::Pin;
+use std::sync::{Arc, RwLock};
+
+use kameo::prelude::*;
+use sierradb::bucket::PartitionId;
+use sierradb::bucket::segment::CommittedEvents;
+
+use crate::{ClusterActor, ClusterError};
+
+pub type BoxFut<T> = Pin<Box<dyn Future<Output = T> + Send + 'static>>;
+
+/// Catch-up request of a replica (mirror of the private `PartitionSyncRequest`).
+#[derive(Clone, Debug)]
+pub struct SyncRequest {
+    pub partition_id: PartitionId,
+    pub from_seq: u64,
+    pub to_seq: u64,
+}
+
+pub trait Transport: Send + Sync + 'static {
+    /// A replica asks `coordinator` for the committed transactions in `from_seq..=to_seq`.
+    fn partition_sync(
+        &self,
+        coordinator: RemoteActorRef<ClusterActor>,
+        request: SyncRequest,
+    ) -> BoxFut<Result<Vec<CommittedEvents>, RemoteSendError<ClusterError>>>;
+}
+
+static TRANSPORT: RwLock<Option<Arc<dyn Transport>>> = RwLock::new(None);
+
+pub fn install_transport(transport: Option<Arc<dyn Transport>>) {
+    *TRANSPORT.write().unwrap_or_else(|e| e.into_inner()) = transport;
+}
+
+pub fn transport() -> Option<Arc<dyn Transport>> {
+    TRANSPORT.read().unwrap_or_else(|e| e.into_inner()).clone()
+}
